@@ -129,8 +129,32 @@ def finish(res):
 # sharding
 
 
+_KEPT_LOOPS = []
+
+
+def fresh_event_loop():
+    """Give this thread a new asyncio event loop and keep the old one alive but unused.  A loop created
+    before a fork shares its epoll instance and wake-up socket with the children: a child that touches or
+    closes its copy un-registers the parent's wake-up socket, after which the parent's loop never notices
+    results coming from worker threads (xandikos' WSGI entry point would wait forever)."""
+    import asyncio
+    import warnings
+
+    with warnings.catch_warnings():
+        warnings.simplefilter("ignore")
+        try:
+            old = asyncio.get_event_loop_policy()._local._loop
+        except Exception:
+            old = None
+        if old is not None:
+            _KEPT_LOOPS.append(old)
+        asyncio.set_event_loop(asyncio.new_event_loop())
+
+
 def _shard_entry(args):
     fn, shard, kw = args
+    if not os.environ.get("XV_INPROC") and NSHARDS != 1:
+        fresh_event_loop()  # never the loop inherited from the parent
     try:
         return fn(shard=shard, **kw)
     except Exception:
@@ -143,8 +167,11 @@ def run_shards(fn, nshards=None, **kw):
     if nshards == 1 or os.environ.get("XV_INPROC"):
         return [_shard_entry((fn, i, kw)) for i in range(nshards)]
     ctx = multiprocessing.get_context("fork")
-    with concurrent.futures.ProcessPoolExecutor(max_workers=min(nshards, os.cpu_count() or 4), mp_context=ctx) as ex:
-        return list(ex.map(_shard_entry, [(fn, i, kw) for i in range(nshards)]))
+    try:
+        with concurrent.futures.ProcessPoolExecutor(max_workers=min(nshards, os.cpu_count() or 4), mp_context=ctx) as ex:
+            return list(ex.map(_shard_entry, [(fn, i, kw) for i in range(nshards)]))
+    finally:
+        fresh_event_loop()  # whatever the children did to a shared loop, the parent continues with its own
 
 
 # ---------------------------------------------------------------------------
